@@ -30,7 +30,8 @@ RULE = (
     "text and back, further constructions, calls on other programs in between, two sources sharing one experiment "
     "name) and by child interpreters (PYTHONHASHSEED 0/1/max/random, LANG/LC_ALL C / POSIX / C.UTF-8 / nonexistent, "
     "PYTHONUTF8 0/1, setlocale, cwd / and temp dirs incl. a non-ASCII name, -O, -X dev, TZ; half of the children evaluate "
-    "the corpus in reverse order first). distinct_nontrivial = "
+    "the corpus in reverse order first; 'fake-world' children see a clock shifted by 400 days, another pid / host / user and "
+    "another state of the global random generator; the in-process history re-seeds `random` between calls). distinct_nontrivial = "
     "distinct pairs whose routed return has >= 2 positive-weight groups and that were observed by >= 2 instances and "
     ">= 2 processes."
 )
@@ -50,7 +51,7 @@ def child_envs(quick):
     base = [
         ("hashseed-0", dict(PYTHONHASHSEED="0"), [], None),
         ("hashseed-1", dict(PYTHONHASHSEED="1"), ["--reverse-first"], None),
-        ("hashseed-max", dict(PYTHONHASHSEED="4294967295"), [], None),
+        ("hashseed-max+fake-world", dict(PYTHONHASHSEED="4294967295", TZ="Pacific/Kiritimati"), ["--fake-world"], None),
         ("hashseed-random-a", dict(PYTHONHASHSEED="random"), [], None),
         ("hashseed-random-b", dict(PYTHONHASHSEED="random"), ["--reverse-first"], None),
         ("locale-C-noutf8", dict(LANG="C", LC_ALL="C", PYTHONUTF8="0", PYTHONCOERCECLOCALE="0", PYTHONHASHSEED="7"), [], None),
@@ -65,7 +66,7 @@ def child_envs(quick):
         ("cwd-tmp", dict(PYTHONHASHSEED="random"), [], "tmp"),
         ("optimize", dict(PYTHONHASHSEED="3"), ["-O", "--reverse-first"], None),
         ("optimize2", dict(PYTHONHASHSEED="4"), ["-OO"], None),
-        ("tz", dict(TZ="Asia/Kolkata", PYTHONHASHSEED="random"), [], None),
+        ("tz+fake-world", dict(TZ="Asia/Kolkata", PYTHONHASHSEED="random"), ["--fake-world", "--reverse-first"], None),
         ("no-user-site+isolated-ish", dict(PYTHONNOUSERSITE="1", PYTHONHASHSEED="random"), ["-s"], None),
         ("hashseed-random-c", dict(PYTHONHASHSEED="random"), [], None),
         ("hashseed-2", dict(PYTHONHASHSEED="2"), ["--reverse-first"], None),
@@ -80,8 +81,8 @@ def run_child(name, env_over, pyflags, cwd_kind, corpus_path, outdir):
         env.pop(k, None)
     env.update(env_over)
     env["PYTHONPATH"] = f"{HOME}:{os.path.join(REPO, 'src')}"
-    flags = [f for f in pyflags if f not in ("--setlocale", "--reverse-first")]
-    extra = [f for f in ("--setlocale", "--reverse-first") if f in pyflags]
+    flags = [f for f in pyflags if f not in ("--setlocale", "--reverse-first", "--fake-world")]
+    extra = [f for f in ("--setlocale", "--reverse-first", "--fake-world") if f in pyflags]
     out = os.path.join(outdir, name + ".json")
     tmp = None
     if cwd_kind == "tmp":
@@ -205,7 +206,11 @@ def run(ctx):
         for e in extra:
             ops.insert(rnd.randrange(len(ops) + 1), e)
         away = set()
-        for op, i, j in ops:
+        for opn, (op, i, j) in enumerate(ops):
+            if opn % 7 == 0:
+                import random as _r
+
+                _r.seed(rnd.getrandbits(32))  # assignments with splitters must not consume / depend on the global RNG
             if op == "call":
                 ev, text, sid = insts[i]
                 env = envs[j] if text == gp.text else None
